@@ -4,7 +4,8 @@
 
 use crate::api::ApiState;
 use crate::schema::{
-    METRIC_NAME_FIELD, TIMESTAMP_FIELD, VALUE_F64_FIELD, VALUE_I64_FIELD, VALUE_U64_FIELD,
+    is_fixed_column_name, METRIC_NAME_FIELD, TIMESTAMP_FIELD, VALUE_F64_FIELD, VALUE_I64_FIELD,
+    VALUE_U64_FIELD,
 };
 use crate::Result;
 
@@ -39,9 +40,11 @@ pub async fn handle_remote_write(State(state): State<ApiState>, body: Bytes) -> 
     };
 
     // 3. Convert to Arrow RecordBatch
+    // A request that parses but does not stand for a batch (reserved label name, timestamp
+    // out of range, ...) is the sender's error: a 5xx would make it retry for ever.
     let batch = match convert_prom_to_arrow(&write_request) {
         Ok(batch) => batch,
-        Err(_) => return StatusCode::INTERNAL_SERVER_ERROR,
+        Err(_) => return StatusCode::BAD_REQUEST,
     };
 
     // 4. Ingest
@@ -362,6 +365,15 @@ fn convert_prom_to_arrow(req: &WriteRequest) -> Result<RecordBatch> {
                 label_names.insert(label.name.clone());
             }
         }
+    }
+
+    // A label named like a fixed column would become a second column of that name: the
+    // stored metric name or timestamp would read back as the label's value.
+    if let Some(name) = label_names.iter().find(|name| is_fixed_column_name(name)) {
+        return Err(crate::Error::InvalidSchema(format!(
+            "Label name '{}' is reserved for a metric column",
+            name
+        )));
     }
 
     // Pre-calculate total sample count
